@@ -22,7 +22,7 @@
 EXTENDS Spell
 PP == INSTANCE Parse
 
-ALPHASEQ == <<"a", "b", "c", "A", "B", "C", "x", "y", "0", "1", "9", "U", "E", "T", "K", "Q", "N", "D", "S", "R">>
+ALPHASEQ == <<"a", "b", "c", "A", "B", "C", "x", "y", "0", "1", "9", "U", "E", "Z", "T", "K", "Q", "N", "D", "S", "R">>
 ALPHA == {ALPHASEQ[j] : j \in 1..Len(ALPHASEQ)}
 SetToAlphaSeq(S) == SelectSeq(ALPHASEQ, LAMBDA t : t \in S)
 
@@ -32,7 +32,7 @@ RECURSIVE Chars(_, _)
 Chars(frs, j) == IF j > Len(frs) THEN <<>> ELSE FragChars(frs[j]) \o Chars(frs, j + 1)
 
 \* parser character -> Text token
-TokOf(c) == CASE c = "@E" -> "E" [] c = "@T" -> "T" [] c = "@K" -> "K" [] c = "@Q" -> "Q" [] c = "\n" -> "N" [] c = "-" -> "D" [] c = " " -> "S"
+TokOf(c) == CASE c = "@E" -> "E" [] c = "@Z" -> "Z" [] c = "@T" -> "T" [] c = "@K" -> "K" [] c = "@Q" -> "Q" [] c = "\n" -> "N" [] c = "-" -> "D" [] c = " " -> "S"
               [] c = "_" -> "U" [] c = "\r" -> "R" [] OTHER -> c
 
 (***************************************************************************)
@@ -42,7 +42,7 @@ TokOf(c) == CASE c = "@E" -> "E" [] c = "@T" -> "T" [] c = "@K" -> "K" [] c = "@
 (* classes.  Anything else is "opaque" (never produced by Spell).          *)
 (***************************************************************************)
 PerlSet(b) == CASE b = "d" -> {"0", "1", "9"}
-                [] b = "w" -> {"a", "b", "c", "A", "B", "C", "x", "y", "0", "1", "9", "U", "E", "T", "K"}
+                [] b = "w" -> {"a", "b", "c", "A", "B", "C", "x", "y", "0", "1", "9", "U", "E", "Z", "T", "K"}
                 [] b = "s" -> {"N", "S", "R"}
 RECURSIVE Members(_, _)
 Members(s, j) ==    \* s = the text between the brackets; "?" marks an unsupported construct
@@ -104,7 +104,7 @@ NormCat(xs, j) ==
    IF j > Len(xs) THEN <<>>
    ELSE LET h == Norm(xs[j]) IN (IF h.k = "empty" THEN <<>> ELSE IF h.k = "cat" THEN h.xs ELSE <<h>>) \o NormCat(xs, j + 1)
 Norm(e) ==
-   CASE e.k = "lit" -> IF e.ci /\ Fold(e.c) \in {"a", "b", "c"} THEN [k |-> "lit", c |-> Fold(e.c), ci |-> TRUE] ELSE [k |-> "lit", c |-> e.c, ci |-> FALSE]
+   CASE e.k = "lit" -> IF e.ci /\ Fold(e.c) \in {"a", "b", "c", "E"} THEN [k |-> "lit", c |-> Fold(e.c), ci |-> TRUE] ELSE [k |-> "lit", c |-> e.c, ci |-> FALSE]
      [] e.k = "class" -> LET M == SeqToSet(e.set)
                              inn(t) == IF e.ci THEN \E m \in M : Fold(m) = Fold(t) ELSE t \in M
                          IN [k |-> "class", set |-> IF "?" \in M THEN e.set ELSE SetToAlphaSeq({t \in ALPHA : inn(t) # e.neg}), neg |-> FALSE, ci |-> FALSE]
